@@ -38,7 +38,7 @@ func (*c16) Rule() string {
 }
 
 func (k *c16) Setup(c *core.Ctx) (int, error) {
-	return c.N(150, 3000), nil
+	return c.N(700, 8000), nil
 }
 
 func (*c16) Finish(c *core.Ctx) {
